@@ -7,6 +7,8 @@ reach every indexing site through order-keeping operations only - a sort / uniqu
 changes the normal form; (GUARD) ValueError for len(X) != len(x), for Y∩X non-empty, and for a
 mean/covariance size mismatch at construction, each before the first inverse / store; conditioning on
 nothing returns marginal(Y).
+Also decided: guards are compared as predicates over the index sets (Venn-world tables, membership-mask idiom, intersect1d size);
+(OWN) the queries write none of their arguments; (HISTORY) no cache keyed by part of the arguments.
 Not decided: floating-point accuracy of the inverse.
 """
 from .common import *
